@@ -6,6 +6,7 @@
 package main
 
 import (
+	"bytes"
 	"encoding/hex"
 	"encoding/json"
 	"flag"
@@ -150,7 +151,11 @@ func (s *sim) concretise(e Entry, id []byte, v uint64) (*bftpb.QuorumCertSign, E
 		case 1:
 			sig = signWith(pubKey, append(append([]byte{}, id...), 'x'))
 		default:
-			sig = signWith(pubKey, idR)
+			if bytes.Equal(id, idR) { // "another id" must differ from the certified one
+				sig = signWith(pubKey, idP)
+			} else {
+				sig = signWith(pubKey, idR)
+			}
 		}
 	default: // "bad": corrupted; well-formed (verification fails) or unparsable (verification errors)
 		good := signWith(pubKey, id)
@@ -300,6 +305,8 @@ func (s *sim) step(op fx.Ev, v uint64) (fx.Ev, error) {
 			id, pview = idU, 3+int64(v%4)
 		case "orphan_far":
 			id, pview = idU, 7+int64(v%3)
+		case "highqc": // the certificate is for the local HighQC (the root of a freshly started tree)
+			id, pview = idR, 1
 		case "lowview":
 			rules = s.low
 		case "nilvals":
